@@ -907,6 +907,26 @@ mod misc {
             clone: Some(&|b| b.clone()),
             touch: &|b| ignore(|| -> Result<_, FtrlError> { b.fit_with(None, &ds) }),
         };
+        // the positional constructor `FtrlParams::new(alpha, beta, l1_ratio, l2_ratio, rng)` ("hyperparameters with
+        // pre-defined values") must describe the same parameter set as the setter chain with the same values: same
+        // verdict, same checked values
+        {
+            use linfa::ParamGuard;
+            obs.class("ftrl_positional_constructor");
+            let by_ctor: P = FtrlParams::new(at(cx.vals, 0), at(cx.vals, 1), at(cx.vals, 2), at(cx.vals, 3), CountRng::new(cx.seed, &rp));
+            let by_set: P = Ftrl::<f64>::params_with_rng(CountRng::new(cx.seed, &rp)).alpha(at(cx.vals, 0)).beta(at(cx.vals, 1)).l1_ratio(at(cx.vals, 2)).l2_ratio(at(cx.vals, 3));
+            let a = match by_ctor.check_ref() {
+                Ok(c) => format!("Ok(alpha {:e}, beta {:e}, l1_ratio {:e}, l2_ratio {:e})", c.alpha(), c.beta(), c.l1_ratio(), c.l2_ratio()),
+                Err(e) => format!("Err({e})"),
+            };
+            let b = match by_set.check_ref() {
+                Ok(c) => format!("Ok(alpha {:e}, beta {:e}, l1_ratio {:e}, l2_ratio {:e})", c.alpha(), c.beta(), c.l1_ratio(), c.l2_ratio()),
+                Err(e) => format!("Err({e})"),
+            };
+            obs.ensure(a == b, "ftrl:constructor:differs-from-setter-chain", || {
+                format!("FtrlParams::new({:e}, {:e}, {:e}, {:e}, rng).check_ref() = {a}, the setter chain with the same values gives {b}", at(cx.vals, 0), at(cx.vals, 1), at(cx.vals, 2), at(cx.vals, 3))
+            });
+        }
         let Some((v, hb)) = guard_core(
             obs,
             &g,
